@@ -21,6 +21,7 @@ MACRO_SETS = [
     [("my_app::logging", "event")],
     [("log", "info"), ("tracing", "info")],
     [("журнал", "инфо")],
+    [("log", "info"), ("tracing", "event"), ("my_app::audit", "record")],
 ]
 
 
